@@ -454,6 +454,9 @@ pub assume_specification<I: Iterator>[Peekable::<I>::peek](it: &mut Peekable<I>)
     ensures rest(*final(it)) == rest(*old(it)),
         rest(*old(it)).len() == 0 ==> r is None,
         rest(*old(it)).len() > 0 ==> r == Some(&rest(*old(it))[0]);
+pub assume_specification<I: Iterator + Clone>[<Peekable<I> as Clone>::clone](it: &Peekable<I>) -> (r: Peekable<I>)
+    where I::Item: Clone
+    ensures rest(r) == rest(*it);
 pub assume_specification<I: Iterator>[<Peekable<I> as Iterator>::next](it: &mut Peekable<I>) -> (r: Option<I::Item>)
     ensures
         rest(*old(it)).len() == 0 ==> r is None && rest(*final(it)) == rest(*old(it)),
@@ -551,15 +554,9 @@ pub proof fn lemma_char_step_is_advance(s0: State, c: char, r0: Seq<char>, s1: S
     }
 }
 
-/// HAVOCKED arms of into_tokens (number scanning with iterator clone look-ahead; string scanning with a by-value
-/// `for c in it` loop and re-lexing of interpolated expressions): their effect is ASSUMED to satisfy the same
+/// HAVOCKED arm of into_tokens (string scanning with a by-value `for c in it` loop and re-lexing of interpolated
+/// expressions): its effect is ASSUMED to satisfy the same
 /// character-level contract (A-HAVOC-ARMS); the bounded span oracle exercises them on the real code.
-#[verifier::external_body]
-pub fn verif_havoc_number_arm(c: char, it: &mut Peekable<Chars>, state: &mut State) -> (r: LexResult)
-    requires wf(*old(state)),
-    ensures r is Ok ==> char_step(*old(state), c, rest(*old(it)), *final(state), rest(*final(it))), is_suffix(rest(*final(it)), rest(*old(it))),
-        r matches Ok(v) ==> last_at_caret(v@, *final(state)),
-{ unimplemented!() }
 #[verifier::external_body]
 pub fn verif_havoc_string_arm(c: char, it: &mut Peekable<Chars>, state: &mut State) -> (r: LexResult)
     requires wf(*old(state)),
@@ -609,9 +606,12 @@ pub fn verif_havoc_string_arm(c: char, it: &mut Peekable<Chars>, state: &mut Sta
 //@@ LOOPINV
 //@@< while let Some($lc) = it.peek()
 //@@> invariant is_suffix(rest(*it), rest(*old(it))), $id@ =~= seq![c0] + consumed(rest(*old(it)), rest(*it)), no_nl(consumed(rest(*old(it)), rest(*it))), decreases rest(*it).len(),
-//@@ HAVOC
-//@@< '0'..='9' => { let mut number $$ } 'a'..='z'
-//@@> '0'..='9' => { verif_havoc_number_arm(c, it, state) } 'a'..='z'
+//@@ HINT after
+//@@< let mut $number = c.to_string(); let mut $exp = String::new(); let mut $float = false; let mut $enum = false;
+//@@> let ghost cn = c;
+//@@ REPLACE
+//@@< while let Some(&$nc) = it.peek() { match $nc {
+//@@> while let Some(verif_ref) = it.peek() invariant is_suffix(rest(*it), rest(*old(it))), no_nl(consumed(rest(*old(it)), rest(*it))), $number@.len() >= 1, (rest(*old(it)).len() - rest(*it).len()) == $number@.len() - 1 + $exp@.len() + (if $enum { 1int } else { 0int }), !$enum ==> $exp@.len() == 0, decreases rest(*it).len(), { let $nc = *verif_ref; /* ref pattern `Some(&c)` spelled as a deref: Verus does not take ref patterns */ match $nc {
 //@@ HAVOC
 //@@< '"' => { let mut string $$ } ' ' =>
 //@@> '"' => { verif_havoc_string_arm(c, it, state) } ' ' =>
